@@ -83,7 +83,7 @@ BodyOf(w, T) == IF T = MainName THEN w.main
 InitX(w, T) == IF w.tree = "ab" \/ ModIdx(w, T) = 0 THEN 7 ELSE w.mods[ModIdx(w, T)].init
 \* a module file that contains an import statement with an invalid path does not compile
 ParseOK(body) == \A k \in 1..Len(body):
-                    body[k].k \in {"imp", "from"} => AcceptsName(body[k].tgt)
+                    body[k].k \in {"imp", "fimp", "from"} => AcceptsName(body[k].tgt)
 
 \* ===================================================================== machine state
 Frame(i) == [o |-> i, pc |-> 1, it |-> 0, vals |-> <<>>, skip |-> {}]
@@ -174,7 +174,7 @@ Want(w, s) ==
       B == BodyOf(w, s.insts[f.o].name)
   IN IF f.pc > Len(B) THEN <<>>
      ELSE LET st == B[f.pc] IN
-       IF st.k = "imp"
+       IF st.k \in {"imp", "fimp"}
        THEN IF st.tgt \in DOMAIN s.modules \/ st.tgt \in f.skip THEN <<>> ELSE st.tgt
        ELSE IF st.k = "from"
        THEN LET it == IF f.it = 0 THEN Len(st.items) ELSE f.it
@@ -192,6 +192,22 @@ ExecImp(s, st) ==
   IN IF st.tgt \in DOMAIN s.modules
      THEN Advance(Used(SetVar(s, f.o, var, ModV(s.modules[st.tgt])), st.tgt))
      ELSE Fail(s, s.lasterr)
+
+\* `func() { import T [as v]; v.bump(); emit(v.x) }()`: the name is local to the function
+ExecFimp(s, st) ==
+  IF st.tgt \in DOMAIN s.modules
+  THEN LET j == s.modules[st.tgt]
+           fv == IF "bump" \in DOMAIN s.insts[j].env THEN s.insts[j].env["bump"] ELSE [t |-> "none", n |-> 0, f |-> ""]
+       IN IF fv.t = "fn" /\ "x" \in DOMAIN s.insts[fv.n].env /\ s.insts[fv.n].env["x"].t = "int"
+          THEN LET nv == s.insts[fv.n].env["x"].n + 1
+                   s1 == [s EXCEPT !.insts = [@ EXCEPT ![fv.n] = [@ EXCEPT !.env = Ext(@, "x", IntV(nv))]],
+                                   !.log = Append(@, Entry("bump", s.insts[fv.n].name, nv)),
+                                   !.uses = Ext(@, st.tgt, Count(@, st.tgt) + 1)]
+                   xv == s1.insts[j].env["x"]
+               IN IF xv.t = "int" THEN Advance([s1 EXCEPT !.log = Append(@, Entry("obs", <<>>, xv.n))])
+                  ELSE [s EXCEPT !.status = "unknown", !.stack = <<>>]
+          ELSE [s EXCEPT !.status = "unknown", !.stack = <<>>]
+  ELSE Fail(s, s.lasterr)
 
 RECURSIVE BindAll(_, _, _, _, _)
 BindAll(s, i, items, vals, k) ==
@@ -264,6 +280,7 @@ Exec(w, s) ==
      ELSE IF f.pc > Len(B) THEN Finish(s)
      ELSE LET st == B[f.pc] IN
           IF st.k = "imp" THEN ExecImp(s, st)
+          ELSE IF st.k = "fimp" THEN ExecFimp(s, st)
           ELSE IF st.k = "from" THEN ExecFrom(s, st)
           ELSE ExecOp(s, st)
 
